@@ -8,7 +8,7 @@ tree (`Ampverif.Gen.C14.classTable`, every class produced by `@unevaluated` in t
 well-formed. `v.sound` = `_get_arguments` is shallow (1c47dce) and PoolSum protects bound indices.
 Only property theorems and non-vacuity examples live here.
 -/
-import Ampverif.Lemmas.C14Unfold
+import Ampverif.Lemmas.C14Keys
 import Ampverif.Gen.C14Table
 
 namespace Ampverif.Props.C14
@@ -80,6 +80,79 @@ theorem unfold_xreplace_commute_package (v : Variant) (hv : v.sound) (c : String
     unfold v Ampverif.Gen.C14.classTable (xreplace v (.node c es t) σ)
       = xreplace v (unfold v Ampverif.Gen.C14.classTable (.node c es t)) σ :=
   unfold_xreplace_commute _ classTable_wf v hv c es t σ harity hlocals
+
+/-! ### 1b. substitution KEYS that are terms (array symbols, applied functions, indexed symbols, folded instances)
+
+`substT`/`xreplaceT` model `Basic._subs`/`_xreplace` for an arbitrary key: `_aresame`/`in rule` at
+every node, `PoolSum._eval_subs`/`_xreplace` (bound index symbols only), `_eval_subs_method`, else
+the arguments — pool values included. -/
+
+/-- with a symbol as key they are the symbol-keyed `subs`… -/
+theorem subs_term_key_symbol (v : Variant) (hv : v.sound) (x : Sym) (a e : Expr) :
+    substT v (.sym x) a e = subst1 v x a e :=
+  substT_sym v hv x a e
+
+/-- …and `xreplace` (so every theorem about those applies to them). -/
+theorem xreplace_term_keys_symbols (v : Variant) (hv : v.sound) (e : Expr) (σ : List (Sym × Expr)) :
+    xreplaceT v e (symKeys σ) = xreplace v e σ :=
+  xreplaceT_symKeys v hv e σ
+
+/-- `expr.subs(old, new)` then `evaluate()` equals `evaluate()` then `subs(old, new)` for a key
+`old` that is an uninterpreted node (an `ArraySymbol` four-momentum, an applied function, an indexed
+symbol, a folded instance of another class) whose head does not occur in the class template, and
+that is not the instance itself: for every well-formed table, arbitrary arguments and attributes,
+arbitrary replacement `new`. -/
+theorem unfold_subs_term_key_commute (tbl : ClassTable) (hw : wfTable tbl = true) (v : Variant)
+    (hv : v.sound) (c : String) (es : List Expr) (t : List Attr) (old new : Expr) (h : String)
+    (ho : headOf old = some h) (hne : Expr.eqv (.node c es t) old = false)
+    (hfresh : ∀ ci T, tbl.find c = some ci → templateFor ci t = some T → h ∉ heads T) :
+    unfold v tbl (substT v old new (.node c es t)) = substT v old new (unfold v tbl (.node c es t)) := by
+  have hr : v.getArgsRecursive = false := hv.1
+  have hx : substT v old new (.node c es t) = .node c (substTList v old new es) t := by
+    simp [substT, hne, hr]
+  rw [hx]
+  cases hf : tbl.find c with
+  | none => simp [unfold, hf, hx]
+  | some ci =>
+    by_cases hd : ci.implementDoit = true
+    · cases hT : templateFor ci t with
+      | none => simp [unfold, hf, hd, hT, hx]
+      | some T =>
+        simp only [unfold, hf, hd, hT, if_true, instTemplate]
+        have hwc := wfClass_of_find tbl hw c ci hf
+        have hmem := templateFor_mem ci t T hT
+        simp only [wfClass, Bool.and_eq_true, List.all_eq_true, beq_iff_eq] at hwc
+        have hT' := hwc.2 (t, T) hmem
+        simp only [Bool.and_eq_true, List.all_eq_true, Bool.or_eq_true, beq_iff_eq] at hT'
+        rw [substT_xreplace_template v hv old new h ho _ T hT'.1.2 (hfresh ci T hf hT),
+          zip_map_snd ci.placeholders (fun e => substT v old new e) es, substTList_eq_map]
+    · simp [unfold, hf, hd, hx]
+
+/-- the head `h` occurs in no template of the regenerated table. -/
+def headFresh (h : String) : Bool :=
+  Ampverif.Gen.C14.classTable.all (fun ci => ci.templates.all (fun p => !(heads p.2).contains h))
+
+/-- instance on the regenerated table: every class of the package, every key whose head is fresh. -/
+theorem unfold_subs_term_key_commute_package (v : Variant) (hv : v.sound) (c : String) (es : List Expr)
+    (t : List Attr) (old new : Expr) (h : String) (ho : headOf old = some h) (hh : headFresh h = true)
+    (hne : Expr.eqv (.node c es t) old = false) :
+    unfold v Ampverif.Gen.C14.classTable (substT v old new (.node c es t))
+      = substT v old new (unfold v Ampverif.Gen.C14.classTable (.node c es t)) := by
+  apply unfold_subs_term_key_commute _ classTable_wf v hv c es t old new h ho hne
+  intro ci T hf hT
+  have hm := (find_mem _ c ci hf).1
+  have hmem := templateFor_mem ci t T hT
+  simp only [headFresh, List.all_eq_true] at hh
+  have := hh ci hm (t, T) hmem
+  simpa using this
+
+def arraySymbolHead : String := "app:h:sympy.tensor.array.expressions.array_expressions.ArraySymbol"
+
+/-- no template mentions an `ArraySymbol`, the applied function `H` or the indexed base `B` (the key
+kinds the correspondence and the oracle run): re-checked on the regenerated table on every run. -/
+theorem term_key_heads_fresh :
+    headFresh arraySymbolHead = true ∧ headFresh "app:f:H" = true ∧ headFresh "idx:B" = true := by
+  decide +kernel
 
 /-! ### 2. equality and hash -/
 
@@ -169,6 +242,29 @@ theorem witness_astuple :
     Expr.beq (xreplace vAstuple wNested [(wm1, .sym wx)]) wNestedReplaced = false ∧
     Expr.beq (xreplace Variant.current wNested [(wm1, .sym wx)]) wNestedReplaced = true := by
   decide +kernel
+
+/-! ### term keys: a four-momentum `ArraySymbol` replaced inside a pool sum and inside an instance -/
+
+def cEnergy : String := "ampform.kinematics.lorentz.Energy"
+def wp : Expr := .app "h:sympy.tensor.array.expressions.array_expressions.ArraySymbol" [.sym ⟨"p0", []⟩, .app "a:Tuple()" []]
+def wq : Expr := .app "h:sympy.tensor.array.expressions.array_expressions.ArraySymbol" [.sym ⟨"q1", []⟩, .app "a:Tuple()" []]
+def wlam : Sym := ⟨"lambda", ["integer"]⟩
+/-- `PoolSum((lambda + 2) * x * Energy(p0), (lambda, (-1, 0, 1)))` -/
+def wPoolEnergy : Expr :=
+  .psum (.mul [.add [.sym wlam, .rat 2], .sym wx, .node cEnergy [wp] []]) [(wlam, [.rat (-1), .rat 0, .rat 1])]
+
+/-- `.subs(p0, q1)` reaches the summand of the pool sum although `p0` is not one of its
+`free_symbols` (those hold the inner name symbol only)… -/
+example :
+    Expr.beq (substT Variant.current wp wq wPoolEnergy)
+      (.psum (.mul [.add [.sym wlam, .rat 2], .sym wx, .node cEnergy [wq] []])
+        [(wlam, [.rat (-1), .rat 0, .rat 1])]) = true := by decide +kernel
+/-- …and commutes with unfolding `Energy` on the regenerated table. -/
+example :
+    unfold Variant.current Ampverif.Gen.C14.classTable (substT Variant.current wp wq (.node cEnergy [wp] []))
+      = substT Variant.current wp wq (unfold Variant.current Ampverif.Gen.C14.classTable (.node cEnergy [wp] [])) :=
+  unfold_subs_term_key_commute_package _ (by decide) cEnergy _ _ wp wq arraySymbolHead (by decide +kernel)
+    term_key_heads_fresh.1 (by decide +kernel)
 
 /-! ### non-vacuity on the regenerated table -/
 
